@@ -62,11 +62,12 @@ def strategy(eng: str, gated: bool, seed: int):
                            wide=True, req_many=True, types=['N1', 'N2', 'N3', 'NN', 'Z1', 'Z2'], noread_rate=30, max_workers=(1, 1, 2, 3, None),
                            contexts=False)
 
-    def fin(sp, disp):
+    def fin(sp, disp, top):
         sp = {**sp, 'gated': gated}
-        sp['lab'] = {**sp['lab'], 'displays': disp}
+        sp['lab'] = {**sp['lab'], 'displays': disp, 'top': top}
         return sp
-    return st.builds(fin, s, st.booleans())
+    from pbt import dagrun
+    return st.builds(fin, s, st.booleans(), dagrun.top_strategy())
 
 
 def kill_focus(backend: str):
